@@ -45,11 +45,6 @@ def nodeId : Node → String
   | .bos => "bos"
   | .eos => "eos"
 
-def addToMap (m : List (Str × List Word)) (key : Str) (w : Word) : List (Str × List Word) :=
-  if m.any (fun p => Kkc.beqStr p.1 key) then
-    m.map fun p => if Kkc.beqStr p.1 key then (p.1, p.2 ++ [w]) else p
-  else m ++ [(key, [w])]
-
 def KkcState.dict (s : KkcState) : Dict :=
   { std := s.std, stdTrie := s.stdTrie, anc := s.anc, ancTrie := s.ancTrie }
 
